@@ -29,6 +29,10 @@ JAR = "/opt/veriftools/tla/tla2tools.jar:/opt/veriftools/tla/CommunityModules-de
 NCPU = os.cpu_count() or 4
 
 
+import threading
+_lock = threading.Lock()
+
+
 class Infra(Exception):
     """infrastructure failure: exit 2, never a violation"""
 
@@ -106,8 +110,10 @@ class Ctx:
     # ---- TLC --------------------------------------------------------------------------------
     def tlc(self, module, cfg, workers=1, env=None, timeout=1500, heap="4g", outfile=None, extra=(), allow=(0,), simulate=None, depth=None):
         """Run TLC on spec/<module>.tla with spec/<cfg>. Returns dict(out, generated, distinct, results, rc)."""
-        self.tlc_runs += 1
-        md = self.sub("md-%d" % self.tlc_runs)
+        with _lock:
+            self.tlc_runs += 1
+            k = self.tlc_runs
+        md = self.sub("md-%d" % k)
         tmp = self.sub("tmp")
         cmd = ["java", "-XX:+UseParallelGC", "-Xmx" + heap, "-Xss256m", "-Djava.io.tmpdir=" + tmp,
                "-DTLA-Library=" + os.path.join(SPEC, "lib"), "-cp", JAR, "tlc2.TLC",
